@@ -20,14 +20,14 @@ pub fn prop() -> Prop {
 
 fn spec() -> Spec {
     Spec {
-        kinds: vec![Kind { name: "five_dof", quick: 100_000, thorough: 5_000_000, serial: false }],
+        kinds: vec![Kind { name: "five_dof", quick: 500_000, thorough: 12_000_000, serial: false }],
         rule: "each case = non-degenerate robot with dof 5 or 6 (64 sign patterns, offsets) bare / behind an axial tool / on an arbitrary base / both; pose = reference FK of a generated q; J6 values 0, +-pi, 1e3, random; inverse_5dof and inverse_continuing_5dof on every robot, inverse and inverse_continuing additionally on dof-5 robots; every answer: tool point, tool axis, J6 bit-identical to the caller's value; generating J1..J5 present when non-singular; never empty on a pose produced by the robot's own FK; non-trivial = call returned >= 1 vector; distinct = hash(robot, stack, q, j6, entry)",
         assumptions: vec![
             "accuracy 1e-6 m / 1e-6 rad plus slack 1e-9 + 1e-12*reach",
             "generating J1..J5 expected only when |sin t5|, |sin(t3+psi3)| and wrist-centre/axis-1 distance >= 1e-3",
             "with the CONSTRAINT_CENTERED sentinel as previous the J6 clause is not evaluated (there is no caller value)",
         ],
-        minimums: vec![("oracle_evals", 500_000, 20_000_000), ("dof5_plain_inverse_calls", 10_000, 500_000), ("answers_checked", 200_000, 10_000_000)],
+        minimums: vec![("oracle_evals", 10_000_000, 250_000_000), ("dof5_plain_inverse_calls", 100_000, 2_500_000), ("answers_checked", 3_000_000, 70_000_000)],
     }
 }
 
